@@ -431,9 +431,18 @@ def evaluate__sum(self: XPathFunction, context: ta.ContextType = None) -> ta.One
     xsd_version = self.parser.xsd_version
     values: list[Any]
     try:
-        values = [get_double(self.string_value(x), xsd_version)
-                  if isinstance(x, XPathNode) else x
-                  for x in self[0].select_flatten(context)]
+        values = []
+        for x in self[0].select_flatten(context):
+            if not isinstance(x, XPathNode):
+                values.append(x)
+            elif not x.is_typed:
+                values.append(get_double(self.string_value(x), xsd_version))
+            else:
+                # The typed value of a schema-typed node (untyped values are cast to double)
+                values.extend(
+                    get_double(v.value, xsd_version) if isinstance(v, UntypedAtomic) else v
+                    for v in self.atomize_item(x)
+                )
     except (TypeError, ValueError):
         if self.parser.version == '1.0':
             return math.nan
